@@ -753,7 +753,11 @@ def do_moments(ctx, case):
                 ex["mu02"] != Fraction(n02, 36 * abs(a00)):
             return "closed form of mu20/mu02", None
         if n02 != 0 and n20 * n02 > 0:
-            if not fclose(math.sqrt(Fraction(n20, n02)), raw):
+            # mu = m - m10*cx cancels: rounding of m20/m02 (a few ulp)
+            # relative to the much smaller mu20/mu02
+            tol = 1e-9 + 4e-15 * (abs(ex["m20"] / ex["mu20"]) +
+                                  abs(ex["m02"] / ex["mu02"]))
+            if not fclose(math.sqrt(Fraction(n20, n02)), raw, rel=tol):
                 return "get_inert_ratio_raw", raw
         return None
     ctx.add("run_moments", r_pts(pts), case, chk)
@@ -776,7 +780,11 @@ def do_moments(ctx, case):
                 if abs(mom[k] - m2[k]) > 1e-9 * abs(mom[k]) + 1e-14 * bigmag:
                     ctx.fail(case, "%s changes under translation by %s: "
                              "%r -> %r" % (k, t.tolist(), mom[k], m2[k]))
-        area_ok = mom["m00"] > 0.5
+        # ">= 1" is claimed for regions (simple polygons): their second
+        # moment matrix is positive definite; random self-intersecting point
+        # lists are only used for the algebraic laws
+        area_ok = (mom["m00"] > 0.5 and mom["mu20"] > 0 and mom["mu02"] > 0
+                   and mom["mu20"] * mom["mu02"] > mom["mu11"] ** 2)
         # get_inert_ratio_prnc rotates the *uncentred* contour and takes
         # moments of float coordinates: the cone terms ~ x^3 y are rounded
         # (eps each) before they cancel down to mu ~ size^4; stated bound:
@@ -1136,10 +1144,10 @@ def do_crosstalk(ctx, case):
     try:
         minv = fc.get_compensation_matrix(**kw)
         enc = None
+    except np.linalg.LinAlgError:      # a subclass of ValueError
+        minv, enc = None, [3]
     except ValueError:
         minv, enc = None, [2]
-    except np.linalg.LinAlgError:
-        minv, enc = None, [3]
     run.count("crosstalk:" + ("negative" if neg else "singular" if det == 0
                               else "ok"))
     if neg and enc != [2]:
